@@ -1,6 +1,8 @@
 use crate::macros::dispatch;
 
 pub use methods::dispatch as pow;
+#[cfg(feature = "verif_hooks")]
+pub use methods::verif_inner;
 
 use crate::{CelError, CelResult};
 
@@ -62,5 +64,17 @@ mod methods {
 
     fn pow(n1: f64, n2: f64) -> f64 {
         n1.powf(n2)
+    }
+
+    /// Forwarders to the typed overloads, for the external verification harness.
+    #[cfg(feature = "verif_hooks")]
+    pub mod verif_inner {
+        use crate::CelResult;
+        pub fn ii(n1: i64, n2: i64) -> CelResult<i64> { super::pow_iir(n1, n2) }
+        pub fn iu(n1: i64, n2: u64) -> CelResult<i64> { super::pow_iur(n1, n2) }
+        pub fn id(n1: i64, n2: f64) -> CelResult<i64> { super::pow_idr(n1, n2) }
+        pub fn ui(n1: u64, n2: i64) -> CelResult<u64> { super::pow_uir(n1, n2) }
+        pub fn uu(n1: u64, n2: u64) -> CelResult<u64> { super::pow_uur(n1, n2) }
+        pub fn ud(n1: u64, n2: f64) -> CelResult<u64> { super::pow_udr(n1, n2) }
     }
 }
